@@ -16,7 +16,8 @@ for l in st.splitlines():
         if p == "MUTANT.diff": continue
         src = os.path.join(wt, p)
         if os.path.isdir(src):
-            for r, _, fs in os.walk(src):
+            for r, ds, fs in os.walk(src):
+                ds[:] = [x for x in ds if x != 'target']
                 for f in fs:
                     rel = os.path.relpath(os.path.join(r, f), wt)
                     os.makedirs(os.path.join(d, "demo", os.path.dirname(rel)), exist_ok=True)
